@@ -48,6 +48,8 @@ void build_firmware(Asm& a, bool irq_driven, bool reconf, bool sem_service, bool
             a.store_imm(MMIO + 0x0D4, 0); // rewrites the interrupt-disable bits (same value) while the host may be sending
         if (save) {
             a.store_imm(MMIO + 0x202, 0x4000);
+            if (timer_irq) // each mailbox interrupt arms ONE more timer interrupt: a finite, unrelated second source
+                a.store_imm(MMIO + 0x20, timer_cfg_word(0, false, false, true));
             a.w(op::POP_R1).w(op::POP_R0);
         }
     };
@@ -126,7 +128,8 @@ public:
         p.set_knob("reconf", (s64)r.chance(1, 3));
         p.set_knob("sem", (s64)r.chance(1, 2));
         p.set_knob("timer_irq", (s64)r.chance(1, 2));
-        p.set_knob("timer_period", (s64)r.range(9, 60));
+        p.set_knob("timer_period", (s64)r.range(3, 60));
+        p.set_knob("timer_periodic", (s64)r.chance(1, 4));
         int hosts = tier.thorough && r.chance(1, 2) ? 2 : (r.chance(1, 4) ? 2 : 1);
         p.set_knob("hosts", hosts);
         p.set_knob("sched_seed", (s64)(r.next() & 0xFFFFFFFF));
@@ -190,8 +193,13 @@ public:
             if (s.op != me)
                 continue;
             u8 ch = (u8)(s.arg(1) % 3);
+            // every channel has exactly one sending thread (so that "send order" is defined), whatever the plan says:
+            // the contract is enforced here, not only in the generator, so that shrinking cannot leave it
+            const int nhosts = (int)std::max<s64>(1, std::min<s64>(sh->plan->knob("hosts", 1), 2));
+            u8 send_ch = nhosts == 1 ? ch : (h == 1 ? (u8)(ch % 2) : (u8)2);
             switch (s.arg(0) % 7) {
             case 0: {
+                ch = send_ch;
                 if (s.arg(2) && !t.SendDataIsEmpty(ch))
                     break;
                 u16 v = (u16)((ch + 1) << 12 | (next_seq[ch]++ & 0xFFF));
@@ -289,7 +297,9 @@ public:
             t.MMIOWrite(0x208, 0x0400); // IRQ 10 (timer 0) -> int1
             t.MMIOWrite(0x24, (u16)plan.knob("timer_period", 23));
             t.MMIOWrite(0x26, 0);
-            t.MMIOWrite(0x20, timer_cfg_word(1, false, false, true)); // auto-restart, running
+            // single shot, armed once here and then again by every mailbox interrupt (a periodic timer would rescue a lost
+            // mailbox request at its next expiry and hide it)
+            t.MMIOWrite(0x20, timer_cfg_word(plan.knob("timer_periodic", 0) ? 1 : 0, false, false, true));
         }
         // ---- the simulated threads
         sched::Config cfg;
